@@ -477,3 +477,38 @@ def expr_paths(stmts: Sequence[ast.stmt], env: Optional[Dict[str, ast.AST]] = No
         else:
             raise OutsideFragment(f"statement outside the fragment: {ast.unparse(stmt)[:60]}")
     return [(conds, env, "fall")]
+
+
+def cond_env(stmts: Sequence[ast.stmt], env: Optional[Dict[str, ast.AST]] = None, keep=frozenset()) -> Dict[str, ast.AST]:
+    """ the value every plain local holds after a block of assignments and if/else arms, as one (conditional) expression
+        per name: arms that assign different values are joined into `A if T else B`.  Statements that bind nothing are
+        skipped; a loop, try or with statement is outside the fragment. """
+    env = dict(env or {})
+    for st in stmts:
+        if isinstance(st, ast.Assign) and len(st.targets) == 1 and isinstance(st.targets[0], ast.Name):
+            if st.targets[0].id not in keep:
+                env[st.targets[0].id] = subst(st.value, env)
+        elif isinstance(st, ast.AnnAssign) and isinstance(st.target, ast.Name) and st.value is not None:
+            if st.target.id not in keep:
+                env[st.target.id] = subst(st.value, env)
+        elif isinstance(st, ast.Assign) and len(st.targets) == 1 and isinstance(st.targets[0], ast.Tuple) \
+                and isinstance(st.value, ast.Tuple) and len(st.value.elts) == len(st.targets[0].elts):
+            values = [subst(v, env) for v in st.value.elts]
+            for tgt, val in zip(st.targets[0].elts, values):
+                if isinstance(tgt, ast.Name) and tgt.id not in keep:
+                    env[tgt.id] = val
+        elif isinstance(st, ast.If):
+            yes, no = cond_env(st.body, env, keep), cond_env(st.orelse, env, keep)
+            test = subst(st.test, env)
+            for key in set(yes) | set(no):
+                a, b = yes.get(key), no.get(key)
+                if a is None or b is None:
+                    continue
+                env[key] = a if txt(a) == txt(b) else ast.IfExp(test=test, body=a, orelse=b)
+        elif isinstance(st, (ast.Return, ast.Assert, ast.Expr, ast.Pass, ast.Continue, ast.Break, ast.Raise)):
+            continue
+        elif isinstance(st, ast.Assign):
+            continue   # stores into containers / attributes bind no local
+        else:
+            raise OutsideFragment(f"statement outside the fragment: {txt(st)[:60]}")
+    return env
